@@ -128,6 +128,18 @@ func c01universe(ops []string) convtypes.TrackingLinks {
 			add(convtypes.ResourceIngressClass, strings.SplitN(o[4:], ":", 2)[0])
 		case strings.HasPrefix(o, "pod"):
 			add(convtypes.ResourcePod, strings.SplitN(o[4:], "!", 2)[0])
+		case strings.HasPrefix(o, "tcp~"):
+			// what an entry of the tcp-services ConfigMap names (the converter tracks none of it: the partition must not show them)
+			for _, e := range world.TCPEntries(o[4:]) {
+				add(convtypes.ResourceService, e.Svc)
+				add(convtypes.ResourceEndpoints, e.Svc)
+				if e.Crt != "" {
+					add(convtypes.ResourceSecret, e.Crt)
+				}
+				if e.CA != "" {
+					add(convtypes.ResourceSecret, e.CA)
+				}
+			}
 		}
 	}
 	res := convtypes.TrackingLinks{}
@@ -258,6 +270,7 @@ func c01obs(p *world.Pipeline, ch *convtypes.ChangedObjects, lines []string, uni
 		"P=" + c01partition(p.Tracker, universe),
 		"H=" + strings.Join(hs, ","),
 		"B=" + strings.Join(bs, ","),
+		"T=" + c01tcpObs(p),
 	}, ";")
 }
 
@@ -575,6 +588,7 @@ func runC01(c *ctx) {
 		c01case(c, strings.Fields(h))
 	}
 	c01strict(c)
+	c01tcpcmRun(c)
 	if c.thorough() {
 		c01exhaustive(c, 3)
 	} else {
